@@ -50,8 +50,8 @@ struct Mock {
     answers: Vec<u8>,
 }
 fn key_of(module: &(dyn Module + Sync)) -> u8 {
-    let f = module.debug_file().unwrap_or_default().to_string();
-    f.trim_start_matches("mod").trim_end_matches(".pdb").parse().expect("mock key")
+    let f = module.code_file().to_string();
+    f.rsplit('\\').next().unwrap_or("").trim_start_matches("mod").trim_end_matches(".dll").parse().expect("mock key")
 }
 #[async_trait::async_trait]
 impl SymbolSupplier for Mock {
@@ -112,8 +112,12 @@ impl FrameWalker for Walker {
     }
 }
 
+/// keys 0, 1: unrelated modules. key 2: the TWIN of key 0 — same debug file and debug id, another
+/// code file (the same binary under a second name). It is a distinct module: it must be located by
+/// its own supplier call and get its own stats entry.
 fn module(k: u8) -> SimpleModule {
-    SimpleModule::from_basic_info(Some(format!("mod{k}.pdb")), Some(debugid::DebugId::nil()), Some(format!("C:\\dir\\mod{k}.dll")), None)
+    let dbg = if k == 2 { 0 } else { k };
+    SimpleModule::from_basic_info(Some(format!("mod{dbg}.pdb")), Some(debugid::DebugId::nil()), Some(format!("C:\\dir\\mod{k}.dll")), None)
 }
 
 struct Built {
@@ -380,6 +384,19 @@ fn configs(tier: Tier) -> Vec<Cfg> {
     for ts in multisets(&s2f, 2) {
         for susp in 1..=2 {
             push(&ts, susp, vec![0, 0], 1, 0);
+        }
+    }
+    // --- twin modules (key 2 shares key 0's debug file and id): 2 and 3 tasks, fill lookups over keys {0, 2}
+    let twin_scripts: Vec<Vec<(u8, u8)>> = vec![vec![(0, 0)], vec![(0, 2)], vec![(0, 0), (0, 2)], vec![(0, 2), (0, 0)], vec![(1, 2)]];
+    for t in 2..=3 {
+        for ts in multisets(&twin_scripts, t) {
+            if !ts.iter().flatten().any(|(_, k)| *k == 2) || !ts.iter().flatten().any(|(_, k)| *k == 0) {
+                continue;
+            }
+            for susp in 0..=(if t == 2 { 2 } else { 1 }) {
+                push(&ts, susp, vec![0, 0, 1], 1, 0);
+                push(&ts, susp, vec![2, 0, 0], 0, 0);
+            }
         }
     }
     // --- 3 tasks x 1 lookup
